@@ -450,7 +450,7 @@ Proof.
   destruct (rem t) eqn:Hr; [|discriminate].
   pose proof (inv_clfin _ I _ _ Hi Hk Hr) as Ho. simpl in Ho.
   pose proof (inv_once _ I) as Hon. simpl in Hon. rewrite Ho in Hon.
-  destruct Hon as (_&_&Hcb&Hd&_). rewrite Hd in Hb. simpl in Hb.
+  destruct Hon as (_&_&Hcb&Hd&_).
   rewrite any_held_false in Hb; [discriminate|]. apply (inv_all_released _ _ I). auto.
 Qed.
 
